@@ -348,7 +348,16 @@ M.CALLEES['cross._func'] = call_func
 
 def _iter_unit(U, ltr, has_I):
     fn = U.func('cross', '_iter')
-    ex = U.executor(fn, axioms=T.axioms('shape', 'mulI'), lenient=True)
+    from contracts import maxvol as _MV
+
+    def c_maxvol(ex_, s_, a_, k_, node_):
+        # the call-site contract of utils._maxvol (proved by unit utils._maxvol); the returned coefficient matrix is remembered so
+        # that the postcondition can say WHICH core is built from it
+        out = _MV.call_maxvol_dispatch(ex_, s_, a_, k_, node_)
+        s_.ghost['B_maxvol'] = s_.deref(out.items[1])
+        return out
+
+    ex = U.executor(fn, axioms=T.axioms('shape', 'mulI'), lenient=True, callees={'utils._maxvol': c_maxvol})
     st = U.state()
     Zc, z = S.core_param('Z')
     r1, n, r2 = T.d0(z), T.d1(z), T.d2(z)
@@ -377,6 +386,19 @@ def _iter_unit(U, ltr, has_I):
         else:
             U.post('core-is-new-rank-x-n-x-r2', p, z3.And(Z(G.shape[1]) == n, Z(G.shape[2]) == r2) if okG else False)
             U.post('carry-is-r1-x-new-rank', p, z3.And(Z(R.shape[0]) == r1, Z(R.shape[1]) == rn) if okR else False)
+        # value level (C05: the cores interpolate; what is stored is the maxvol coefficient matrix in the library's Fortran-order
+        # layout): the left (ltr) / right (rtl) unfolding of the new core IS the coefficient matrix B (resp. its transpose)
+        Bm = p.ghost.get('B_maxvol')
+        if isinstance(Bm, VArr) and Bm.t is not None:
+            if not okG or G.t is None or G.tag != 'core':
+                raise M.ContractMismatch('_iter: the returned core is not built by a modelled fold of the maxvol coefficient matrix')
+            if ltr:
+                U.post('core-is-the-Fortran-order-fold-of-the-coefficient-matrix: unfL(G) = B', p, G.t == T.foldL(Bm.t, r1, n))
+            else:
+                U.post('core-is-the-Fortran-order-fold-of-the-transposed-coefficient-matrix: unfR(G) = B^T', p,
+                       G.t == T.foldR(T.tr(Bm.t), n, r2))
+        else:
+            raise M.ContractMismatch('_iter: no maxvol coefficient matrix was produced through utils._maxvol')
         U.post('one-multi-index-per-new-rank', p, Z(In.shape[0]) == rn if okI else False)
         U.post('multi-indices-one-position-longer', p, Z(In.shape[1]) == (w + 1 if has_I else 1) if okI else False)
         U.post('multi-indices-are-integers', p, z3.BoolVal(okI and In.dtype == 'i'))
@@ -831,6 +853,6 @@ def _cross_shapes_unit(U):
     U.post('three-return-sites-reached', U.pre, z3.BoolVal(nret >= 3))
 
 
-@unit('cross.cross.shapes', props=('C06', 'C05'))
+@unit('cross.cross.shapes', props=('C06', 'C05', 'C11'))
 def u_cross_shapes(U):
     _cross_shapes_unit(U)
